@@ -261,29 +261,6 @@ func hGenDefinition(nd int, withReqs bool, reqs, shapes, nest, malformed int) Pr
 			def.Format = hFormatDesignation("def")
 		}
 	}
-	for j := 0; j < nd; j++ {
-		d := &InputDescriptor{Id: hDescIDs[j], Constraints: &Constraints{}}
-		if formats > 0 && j == 0 {
-			vTag("descriptor_format")
-			if vBool() {
-				d.Format = hFormatDesignation(d.Id)
-			}
-		}
-		if withReqs && hAllInGroupA {
-			d.Group = []string{"A"}
-		} else if withReqs {
-			vTag("groups_" + d.Id)
-			switch vChoice(4) {
-			case 0:
-				d.Group = []string{"A"}
-			case 1:
-				d.Group = []string{"B"}
-			case 2:
-				d.Group = []string{"A", "B"}
-			}
-		}
-		def.InputDescriptors = append(def.InputDescriptors, d)
-	}
 	if withReqs {
 		if nd >= 3 {
 			// the largest descriptor count is combined with the first shapes3 rule shapes only (and no malformed sources)
@@ -295,6 +272,44 @@ func hGenDefinition(nd int, withReqs bool, reqs, shapes, nest, malformed int) Pr
 		for i, k := 0, vLen(1, reqs); i < k; i++ {
 			def.SubmissionRequirements = append(def.SubmissionRequirements, hGenRequirement("r"+string(rune('0'+i)), shapes, nest, malformed))
 		}
+	}
+	used := map[string]bool{}
+	for _, r := range def.SubmissionRequirements {
+		used[r.From] = true
+		for _, c := range r.FromNested {
+			used[c.From] = true
+		}
+	}
+	for j := 0; j < nd; j++ {
+		d := &InputDescriptor{Id: hDescIDs[j], Constraints: &Constraints{}}
+		if formats > 0 && j == 0 {
+			vTag("descriptor_format")
+			if vBool() {
+				d.Format = hFormatDesignation(d.Id)
+			}
+		}
+		if withReqs && hAllInGroupA {
+			d.Group = []string{"A"}
+		} else if withReqs {
+			// any subset of {A,B}; a group no requirement refers to (=> "group is required but not available")
+			// only for the first descriptor
+			options := [][]string{nil}
+			for _, g := range [][]string{{"A"}, {"B"}, {"A", "B"}} {
+				ok := j == 0
+				if !ok {
+					ok = true
+					for _, x := range g {
+						ok = ok && used[x]
+					}
+				}
+				if ok {
+					options = append(options, g)
+				}
+			}
+			vTag("groups_" + d.Id)
+			d.Group = options[vChoice(len(options))]
+		}
+		def.InputDescriptors = append(def.InputDescriptors, d)
 	}
 	return def
 }
